@@ -404,15 +404,49 @@ package mqtt
 // resend: every pending record from seqNoOffset on is loaded and written in ascending order;
 // a record written completely counts as submitted even if a later one fails.
 //@ func mqtt.(*Client).resend -> err
-//@ requires conn != nil && c.persistence != nil && seqNoOffset <= seq.acceptN && seqNoOffset <= seq.submitN && (space == 32768 || space == 49152)
+//@ requires conn != nil && c.persistence != nil && (space == 32768 || space == 49152)
 //@ requires forall(k, st_has(c.persistence, k) ==> st_len(c.persistence, k) >= 2)
 //@ modifies seq.submitN, wire(conn), wire_len(conn), wdl(conn), region("elems.byte")
 //@ loop 1: modifies seq.submitN, wire(conn), wire_len(conn), wdl(conn), region("elems.byte")
-//@ loop 1: invariant seqNoOffset <= seqNo && seqNo <= seq.acceptN && seq.acceptN == old(seq.acceptN)
-//@ loop[C05] 1: invariant seq.submitN >= seqNo && seq.submitN >= old(seq.submitN) && (seq.submitN == old(seq.submitN) || seq.submitN == seqNo)
+//@ loop 1: invariant seqNoOffset <= seqNo && (seqNo <= seq.acceptN || seqNo == seqNoOffset) && seq.acceptN == old(seq.acceptN)
+//@ loop[C05] 1: invariant (seqNo == seqNoOffset || seq.submitN >= seqNo) && seq.submitN >= old(seq.submitN) && (seq.submitN == old(seq.submitN) || seq.submitN == seqNo)
 //@ loop 1: invariant wire_len(conn) >= old(wire_len(conn)) && forall(k, 0, old(wire_len(conn)), wire(conn)[k] == old(wire(conn))[k])
 //@ at[C05,C01,C03] call writeTo#1: assert len(p) == st_len(c.persistence, seqNo % 16384 + space) && len(p) > 0 && forall(k, 1, len(p), p[k] == st_val(c.persistence, seqNo % 16384 + space)[k])
 //@ at[C05,C03] call writeTo#1: assert p[0] == ite(seqNo < seq.submitN && st_val(c.persistence, seqNo % 16384 + space)[0] / 16 == 3, st_val(c.persistence, seqNo % 16384 + space)[0] | 8, st_val(c.persistence, seqNo % 16384 + space)[0])
-//@ ensures[C01,C05] err == nil ==> seq.submitN == ite(old(seq.submitN) > seq.acceptN, old(seq.submitN), seq.acceptN)
+//@ ensures[C01,C05] err == nil && seqNoOffset < seq.acceptN ==> seq.submitN == ite(old(seq.submitN) > seq.acceptN, old(seq.submitN), seq.acceptN)
 //@ ensures[C05] seq.submitN >= old(seq.submitN) && seq.acceptN == old(seq.acceptN)
 //@ ensures[C08] forall(k, 0, old(wire_len(conn)), wire(conn)[k] == old(wire(conn))[k])
+
+// Channel content invariants used by connect.
+//@ chaninv mqtt.Client.connSem(v): true
+
+// dialAndConnect: dial, CONNECT/CONNACK handshake; on success a live connection and its reader.
+//@ func mqtt.(*Client).dialAndConnect -> conn, bufr, err
+//@ unverified
+//@ modifies wire, wire_len, wclosed, wdl, rdl, c.InNewSession.v, rx_pos, rx_buf, rx_pend, rx_size
+//@ ensures err == nil ==> conn != nil && bufr != nil && conn != boxed(connSignal, 0) && conn != boxed(connSignal, 1)
+//@ ensures err != nil ==> conn == nil && bufr == nil
+
+// connect: installs a new connection. Resends happen while both sequence tokens and the
+// write token are held and after connection control was handed back (so Close can interrupt).
+//@ func mqtt.(*Client).connect -> err
+// Rely: the semaphores are closed only by the holder of the connSem token (Close, Disconnect)
+// and the sequence semaphores only by the read routine itself (termCallbacks).
+//@ stable writeSem, seqSem
+//@ requires writable(c) && c.connSem != nil && cap(c.connSem) == 1 && c.persistence != nil
+//@ requires (closed(c.connSem) ==> len(c.connSem) == 0) && (closed(c.writeSem) ==> closed(c.connSem)) && c.connSem != c.writeSem
+//@ requires !closed(c.atLeastOnce.seqSem) && !closed(c.exactlyOnce.seqSem)
+//@ requires c.atLeastOnce.seqSem != nil && cap(c.atLeastOnce.seqSem) == 1 && c.exactlyOnce.seqSem != nil && cap(c.exactlyOnce.seqSem) == 1 && c.atLeastOnce.seqSem != c.exactlyOnce.seqSem
+//@ requires c.offlineSig != nil && !closed(c.offlineSig) && cap(c.offlineSig) == 1 && c.offlineSig != c.onlineSig
+//@ requires forall(k, st_has(c.persistence, k) ==> st_len(c.persistence, k) >= 2)
+//@ at[C18] call dialAndConnect#1: assert config.CleanSession == (c.CleanSession && previousConn == nil) && config.Will.Topic == c.Will.Topic && config.KeepAlive == c.KeepAlive && config.UserName == c.UserName
+//@ at[C18] send connSem#1: assert v == previousConn
+//@ at[C18] send connSem#2: assert v == previousConn
+//@ at[C12,C18] send connSem#3: assert v == conn
+//@ at[C01,C05,C12,C18] call resend#1: assert len(c.connSem) == 1 && len(c.atLeastOnce.seqSem) == 0 && len(c.exactlyOnce.seqSem) == 0 && len(c.writeSem) == 0 && seqNoOffset == c.Acked && space == 32768
+//@ at[C01,C05,C12,C18] call resend#2: assert len(c.connSem) == 1 && len(c.exactlyOnce.seqSem) == 0 && len(c.writeSem) == 0 && seqNoOffset == c.Completed && space == 49152
+//@ ensures[C10,C18] err == nil ==> c.readConn != nil && c.bufr != nil && c.reconnectWait == 0 && len(c.writeSem) == 1 && qat(c.writeSem, 0) == c.readConn && c.readConn != boxed(connSignal, 0) && c.readConn != boxed(connSignal, 1)
+//@ ensures[C10,C18] err != nil ==> c.readConn == old(c.readConn) && c.bufr == old(c.bufr)
+//@ ensures[C18] err != nil && err != ErrClosed ==> len(c.writeSem) == 1 && qat(c.writeSem, 0) == boxed(connSignal, 1)
+//@ ensures[C07] c.pendingAck == old(c.pendingAck)
+//@ ensures[C01] c.Acked == old(c.Acked) && c.Received == old(c.Received) && c.Completed == old(c.Completed)
